@@ -17,6 +17,15 @@ COMMON_NOTE = (
 
 # property -> dict(category, text, note, technique, design_ref)
 CLAIMS = {
+    "C02": dict(
+        category="other",
+        text="Necessary structural conditions only (the break positions themselves are cell-width arithmetic over all strings and are NOT decided): (R2.1) Text.divide cuts the plain text into the consecutive slices between [0, *offsets, len], so division itself cannot drop, duplicate or reorder a character, and re-bases clipped spans to their line; (R2.2) Text.wrap computes the offsets on the very line it divides, with the requested width, folding exactly for overflow='fold', after tab expansion, and returns every produced line; "
+             "(R2.3) per-line span lists are restored to source order (so each character keeps its effective style); (R2.4) units: divide_line compares cells with cells and records character offsets, never mixing them, and chops a word only when it alone exceeds the width under fold, continuing at the current line position; (R2.5) chop_cells places every character exactly once and breaks exactly on overflow; (R2.6) only trailing whitespace is removed at line ends. "
+             "Breaking any of these breaks the property for some input; passing them does not establish it.",
+        note=COMMON_NOTE + "Earlier rounds listed C02 as not applicable; it is now claimed only at the necessary-condition level (DESIGN.md section 8 / 11).",
+        technique="structural partition check, identity dataflow of offsets, units (cells vs characters) analysis, borrowed order-preservation and chop rules",
+        design_ref="8 / 11",
+    ),
     "C06": dict(
         category="other",
         text="Static rules over rich/style.py decide, for every input, the structural clauses of the property: (R6.1) __eq__ and the hash use the same fields; "
@@ -185,7 +194,7 @@ CLAIMS = {
 }
 
 NA = {
-    "C02": "every clause is a relation between input and output strings decided by cell-width arithmetic (divide_line / chop_cells / truncate) over all strings x widths x span sets; "
+    "C02_unused": "every clause is a relation between input and output strings decided by cell-width arithmetic (divide_line / chop_cells / truncate) over all strings x widths x span sets; "
            "no structural fact whose violation must break it exists that is not already owned by C05 (span bookkeeping of divide) or C13 (pad arithmetic); a static claim would be a brittle proxy (DESIGN.md section 8)",
 }
 
